@@ -393,6 +393,74 @@ Proof.
   rewrite (lit1_other _ p2 ";"%char "{"%char [] R eq_refl eq_refl). reflexivity.
 Qed.
 
+Definition colon1 : chars := [":"%char].
+Lemma colons_fail_single : forall f p X, interp g (S f) (GTerm (TLit "::")) {| pk := p; rest := sp colon1 (" "%char :: X) |} = Fail.
+Proof.
+  intros f p X. rewrite i_term. unfold run_term. cbn [pre_term]. unfold colon1. rewrite (pre_sp p ":"%char [] (" "%char :: X) eq_refl).
+  cbn [rest app]. reflexivity.
+Qed.
+Lemma tn_before_colon : forall f p n X, is_ident n = true ->
+  MatchTo (interp g (S (S (S (S (S (S f)))))) TN_BODY {| pk := p; rest := sp n (sp colon1 (" "%char :: X)) |})
+          (strs_items [n]) (sp colon1 (" "%char :: X)).
+Proof.
+  intros f p n X Hn. unfold TN_BODY. rewrite i_and, seq_cons.
+  assert (B : boundary (sp colon1 (" "%char :: X))) by (right; eexists; reflexivity).
+  destruct (IDENT_ok (S (S (S f))) p n _ Hn B) as [p1 E1]. rewrite E1. cbn [app]. rewrite seq_cons, i_star, star_S.
+  unfold SEG at 1. rewrite i_and, seq_cons, i_sup, colons_fail_single. rewrite seq_nil. cbn [app strs_items map]. eexists. reflexivity.
+Qed.
+(* the Typename body one level deeper (the parent of a forward declaration sits inside an Optional) *)
+Lemma tn_body_ok_any : forall f p n l r, no_colons r -> is_ident n = true -> Forall (fun x => is_ident x = true) l ->
+  length l <= f ->
+  MatchTo (interp g (S (S (S (S (S (S f)))))) TN_BODY {| pk := p; rest := render (path_toks (n :: l)) r |}) (strs_items (n :: l)) r.
+Proof. exact tn_body_ok. Qed.
+
+Lemma fwd_fails_class_b : forall (virt : bool) f p n h l R, is_ident n = true ->
+  is_ident h = true -> Forall (fun x => is_ident x = true) l -> length l <= f ->
+  interp g (13 + f) (GRef "ForwardDeclaration")
+         {| pk := p; rest := render (virt_toks virt) (sp kclass (sp n (sp colon1 (render (path_toks (h :: l)) (sp lbrace R))))) |} = Fail.
+Proof.
+  intros virt f p n h l R Hn Hh Hl Hlen. cbn [Nat.add]. rule "ForwardDeclaration"%string.
+  rewrite i_and, seq_cons, i_and, seq_cons, i_and, seq_cons, i_and.
+  set (BASE := render (path_toks (h :: l)) (sp lbrace R)). set (TAIL := sp n (sp colon1 BASE)).
+  assert (Bd : boundary TAIL) by (right; eexists; reflexivity).
+  assert (Bc : boundary (sp kclass TAIL)) by (right; eexists; reflexivity).
+  assert (Step : forall q, exists q',
+     seq (interp g (S (S (S (S (S (S (S (S f))))))))) [GTerm (TKw "class")] (virt_items virt)
+         {| pk := q; rest := sp kclass TAIL |}
+     = Match ((virt_items virt) ++ [([], VStr "class")]) {| pk := q'; rest := TAIL |}).
+  { intros q. rewrite seq_cons, i_term.
+    destruct (kw_self q "c"%char (chars_of "lass") TAIL eq_refl Bd) as [q1 E1].
+    change (string_of ("c"%char :: chars_of "lass")) with "class"%string in E1.
+    change (sp ("c"%char :: chars_of "lass") TAIL) with (sp kclass TAIL) in E1. rewrite E1, seq_nil. exists q1. reflexivity. }
+  assert (Head : exists q', seq (interp g (S (S (S (S (S (S (S (S f)))))))))
+                                [GOpt (GName "is_virtual" (GTerm (TKw "virtual"))); GTerm (TKw "class")] []
+                                {| pk := p; rest := render (virt_toks virt) (sp kclass TAIL) |}
+                            = Match ((virt_items virt) ++ [([], VStr "class")])
+                                    {| pk := q'; rest := TAIL |}).
+  { rewrite seq_cons, i_opt, i_name. destruct virt; cbn [app render fold_right virt_items virt_toks]; fold TAIL.
+    - rewrite i_term. destruct (kw_self p "v"%char (chars_of "irtual") (sp kclass TAIL) eq_refl Bc) as [q1 E1].
+      change (string_of ("v"%char :: chars_of "irtual")) with "virtual"%string in E1.
+      change (sp ("v"%char :: chars_of "irtual") (sp kclass TAIL)) with (sp kvirtual (sp kclass TAIL)) in E1.
+       rewrite E1. cbn [map add_name fst snd app].
+      destruct (Step q1) as [q2 E2]. cbn [virt_items] in E2. exists q2. exact E2.
+    - idtac.
+      rewrite (kw_word_fail _ p "virtual" kclass TAIL ltac:(split; [discriminate | reflexivity]) Bd (safe_nospace _ _ no_blank_virtual) ltac:(discriminate)).
+      cbn [app]. destruct (Step p) as [q2 E2]. cbn [virt_items] in E2. exists q2. exact E2. }
+  destruct Head as [q1 EH].
+  rewrite EH. unfold TAIL.
+  rewrite seq_cons, i_name, (i_ref _ _ "Typename" TN_BODY lookup_Typename).
+  assert (NC : no_colons (sp lbrace R)) by (right; exists "{"%char, R; split; [reflexivity|]; split; reflexivity).
+  assert (EB : exists X, BASE = " "%char :: X) by (unfold BASE; rewrite path_toks_cons; eexists; reflexivity).
+  destruct EB as [X EX]. rewrite EX.
+  destruct (tn_before_colon (1 + f) q1 n X Hn) as [p2 E2]. cbn [Nat.add] in E2. rewrite E2. cbn [map add_name fst snd app strs_items]. rewrite seq_nil.
+  rewrite seq_cons, i_opt, i_and, seq_cons, i_sup. rewrite <- EX.
+  destruct (lit1_at (6 + f) p2 ":"%char BASE eq_refl) as [qa Ea]. cbn [Nat.add] in Ea. change (sp [":"%char] BASE) with (sp colon1 BASE) in Ea.
+  rewrite Ea. cbn [app]. rewrite seq_cons, i_name, (i_ref _ _ "Typename" TN_BODY lookup_Typename). unfold BASE.
+  destruct (tn_body_ok_any f qa h l (sp lbrace R) NC Hh Hl Hlen) as [qb Eb]. rewrite Eb.
+  cbn [map add_name fst snd app]. rewrite ?seq_nil. rewrite ?seq_cons, i_sup.
+  rewrite (lit1_other _ qb ";"%char "{"%char [] R eq_refl eq_refl). reflexivity.
+Qed.
+
 (* the other alternatives on the text of a forward declaration *)
 Lemma include_fails2 : forall p h r f, word h -> boundary r -> interp g (6 + f) (GRef "Include") {| pk := p; rest := sp h r |} = Fail.
 Proof.
@@ -1341,6 +1409,78 @@ Proof.
   rewrite E6, seq_nil. exists mvals, q6. split; [|exact HQ]. unfold class_value. rewrite !app_nil_r, <- !app_assoc. reflexivity.
 Qed.
 
+(* ---- a class with a base: `[virtual] class Name : ns :: Base { members } ;` ---- *)
+Definition class_value_b (virt : bool) (n : chars) (names : list chars) (mvals : list value) : value :=
+  VNode "Class" (virt_items virt ++ [([], VStr "class"); (["name"%string], VStr (string_of n));
+                                     (["parent_class"; "namespaces_and_name"]%string, VNode "Typename" (strs_items names));
+                                     (["members"%string], VNode "Class.Members" (items_of mvals))]).
+Definition class_toks_b (virt : bool) (n : chars) (names : list chars) (mtoks : list chars) : list chars :=
+  virt_toks virt ++ [kclass; n; colon1] ++ path_toks names ++ [lbrace] ++ mtoks ++ [rbrace; semi].
+
+Lemma class_ok_b : forall (Q : list value -> Prop) (virt : bool) n h l mtoks R F, is_ident n = true ->
+  is_ident h = true -> Forall (fun x => is_ident x = true) l -> h <> kconst -> length l + 22 <= F ->
+  (forall p, exists mvals p', star (interp g F) F MOR6 [] {| pk := p; rest := render mtoks (sp rbrace (sp semi R)) |}
+                              = Match (items_of mvals) {| pk := p'; rest := sp rbrace (sp semi R) |} /\ Q mvals) ->
+  forall p, exists mvals p', interp g (7 + F) (GRef "Class") {| pk := p; rest := render (class_toks_b virt n (h :: l) mtoks) R |}
+                             = Match [([], class_value_b virt n (h :: l) mvals)] {| pk := p'; rest := R |} /\ Q mvals.
+Proof.
+  intros Q virt n h l mtoks R F Hn Hh Hl Hk HF Hstar p.
+  assert (XF : exists f, F = 13 + f) by (exists (F - 13); lia). destruct XF as [f EF].
+  set (AFTER := sp rbrace (sp semi R)) in *. set (BODY := render mtoks AFTER) in *.
+  set (BASE := render (path_toks (h :: l)) (sp lbrace BODY)). set (TAIL := sp n (sp colon1 BASE)).
+  assert (ET : render (class_toks_b virt n (h :: l) mtoks) R = render (virt_toks virt) (sp kclass TAIL)).
+  { unfold class_toks_b, TAIL, BASE, BODY, AFTER. rewrite !render_app. reflexivity. }
+  rewrite ET. clear ET.
+  assert (Bd : boundary TAIL) by (right; eexists; reflexivity).
+  assert (Bc : boundary (sp kclass TAIL)) by (right; eexists; reflexivity).
+  assert (Wc : word kclass) by (split; [discriminate | reflexivity]).
+  assert (Wv : word kvirtual) by (split; [discriminate | reflexivity]).
+  (* the head: optional template (absent), optional `virtual`, then `class` *)
+  assert (Head : exists q, seq (interp g (Sn 11 f)) [GOpt (GName "template" (GRef "Template")); GOpt (GName "is_virtual" (GTerm (TKw "virtual")))] []
+                               {| pk := p; rest := render (virt_toks virt) (sp kclass TAIL) |}
+                           = Match (virt_items virt) {| pk := q; rest := sp kclass TAIL |}).
+  { destruct virt; cbn [virt_toks virt_items render fold_right Sn].
+    - pose proof (template_opt_none (4 + f) p kvirtual (sp kclass TAIL) Wv Bc ltac:(discriminate)) as T. unfold TEMPLATE_OPT in T. cbn [Nat.add] in T.
+      rewrite seq_cons, T. cbn [app]. rewrite seq_cons, i_opt, i_name, i_term.
+      destruct (kw_self p "v"%char (chars_of "irtual") (sp kclass TAIL) eq_refl Bc) as [q1 E1].
+      change (string_of ("v"%char :: chars_of "irtual")) with "virtual"%string in E1.
+      change (sp ("v"%char :: chars_of "irtual") (sp kclass TAIL)) with (sp kvirtual (sp kclass TAIL)) in E1. rewrite E1.
+      cbn [map add_name fst snd app]. rewrite seq_nil. exists q1. reflexivity.
+    - pose proof (template_opt_none (4 + f) p kclass TAIL Wc Bd ltac:(discriminate)) as T. unfold TEMPLATE_OPT in T. cbn [Nat.add] in T.
+      rewrite seq_cons, T. cbn [app]. rewrite seq_cons, i_opt, i_name.
+      rewrite (kw_word_fail _ p "virtual" kclass TAIL Wc Bd (safe_nospace _ _ no_blank_virtual) ltac:(discriminate)).
+      cbn [app]. rewrite seq_nil. exists p. reflexivity. }
+  destruct Head as [q EH].
+  subst F. change (7 + (13 + f)) with (Sn 20 f). cbn [Sn]. rule "Class"%string.
+  rewrite i_and, seq_cons, i_and, seq_cons, i_and, seq_cons, i_and, seq_cons, i_and, seq_cons, i_and, seq_cons, i_and, seq_cons, i_and.
+  cbn [Sn] in EH. rewrite EH. rewrite seq_cons, i_term.
+  destruct (kw_self q "c"%char (chars_of "lass") TAIL eq_refl Bd) as [q1 E1].
+  change (string_of ("c"%char :: chars_of "lass")) with "class"%string in E1.
+  change (sp ("c"%char :: chars_of "lass") TAIL) with (sp kclass TAIL) in E1. rewrite E1, seq_nil. rewrite seq_cons, i_name. unfold TAIL.
+  assert (Bl : boundary (sp colon1 BASE)) by (right; eexists; reflexivity).
+  destruct (IDENT_ok (Sn 10 f) q1 n (sp colon1 BASE) Hn Bl) as [q2 E2]. cbn [Sn] in E2. unfold IDENT in E2. rewrite E2.
+  cbn [map add_name fst snd]. rewrite seq_nil. rewrite seq_cons, i_opt, i_and, seq_cons, i_sup.
+  destruct (lit1_at (Sn 10 f) q2 ":"%char BASE eq_refl) as [qa Ea]. cbn [Sn] in Ea. change (sp [":"%char] BASE) with (sp colon1 BASE) in Ea.
+  rewrite Ea. cbn [app]. rewrite seq_cons, i_name. unfold BASE.
+  assert (NC : no_colons (sp lbrace BODY)) by (right; exists "{"%char, BODY; split; [reflexivity|]; split; reflexivity).
+  assert (FO : follow (sp lbrace BODY)) by (right; exists "{"%char, BODY; split; [reflexivity|]; split; reflexivity).
+  assert (Xf : exists f2, f = S (S f2) /\ length l <= f2) by (exists (f - 2); lia). destruct Xf as [f2 [Ef2 Hl2]].
+  pose proof (tt_fails_on_plain f2 qa false h l PNone (sp lbrace BODY) Hh Hl Hk FO Hl2) as TF.
+  cbn [const_toks marker app Nat.add] in TF. rewrite app_nil_r in TF. rewrite <- Ef2 in TF.
+  rewrite (or2_r _ _ _ _ TF). clear TF.
+  rewrite i_name, (i_ref _ _ "Typename" TN_BODY lookup_Typename).
+  destruct (tn_body_ok (S (S f)) qa h l (sp lbrace BODY) NC Hh Hl ltac:(lia)) as [qb Eb]. rewrite Eb.
+  cbn [map add_name fst snd app]. rewrite seq_nil. rewrite seq_nil. rewrite seq_cons, i_sup.
+  destruct (lit1_at (Sn 13 f) qb "{"%char BODY eq_refl) as [q3 E3]. cbn [Sn] in E3. change (sp ["{"%char] BODY) with (sp lbrace BODY) in E3.
+  rewrite E3, seq_nil. rewrite seq_cons, i_name, (i_ref _ _ "Class.Members" (GStar MOR6) members_rule), i_star.
+  destruct (Hstar q3) as [mvals [q4 [E4 HQ]]]. cbn [Nat.add] in E4. rewrite E4. cbn [map add_name fst snd]. rewrite seq_nil.
+  rewrite seq_cons, i_sup. unfold AFTER.
+  destruct (lit1_at (Sn 15 f) q4 "}"%char (sp semi R) eq_refl) as [q5 E5]. cbn [Sn] in E5. change (sp ["}"%char] (sp semi R)) with (sp rbrace (sp semi R)) in E5.
+  rewrite E5, seq_nil. rewrite seq_cons, i_sup.
+  destruct (lit1_at (Sn 16 f) q5 ";"%char R eq_refl) as [q6 E6]. cbn [Sn] in E6. change (sp [";"%char] R) with (sp semi R) in E6.
+  rewrite E6, seq_nil. exists mvals, q6. split; [|exact HQ]. unfold class_value_b. rewrite ?app_nil_r, <- ?app_assoc. reflexivity.
+Qed.
+
 Lemma snd_items0 : forall vs, map snd (items_of vs) = vs.
 Proof. induction vs as [|v vs IH]; [reflexivity|]. unfold items_of in *. cbn [map snd]. f_equal. exact IH. Qed.
 
@@ -1368,6 +1508,31 @@ Proof.
   assert (E5 : flag "is_virtual" (virt_items virt ++ L) = virt) by (destruct virt; reflexivity).
   rewrite E1, E2, E3, E4, E5. cbn [bind]. rewrite snd_items0, HM. cbn [bind]. rewrite HC. reflexivity.
 Qed.
+
+Definition with_base (c : class) (b : option base) : class :=
+  {| c_tmpl := c_tmpl c; c_virtual := c_virtual c; c_name := c_name c; c_base := b; c_ctors := c_ctors c; c_methods := c_methods c;
+     c_statics := c_statics c; c_dunders := c_dunders c; c_props := c_props c; c_ops := c_ops c; c_enums := c_enums c |}.
+Definition base_named (ns : list string) (bn : string) : option base := Some (BName (Typename ns (NStr bn) [])).
+
+Lemma b_decl_class_b : forall k virt n ns bn mvals ms, mapM b_member mvals = Ok ms ->
+  forallb (fun c => String.eqb (k_name c) (string_of n)) (flat_map (fun m => match m with MCtor c => [c] | _ => [] end) ms) = true ->
+  b_decl (S k) (class_value_b virt n (names_of ns bn) mvals) = Ok (DClass (with_base (class_of_members virt (string_of n) ms) (base_named ns bn))).
+Proof.
+  intros k virt n ns bn mvals ms HM HC. unfold class_value_b. cbn [b_decl].
+  change (String.eqb "Class" "Class") with true. cbv iota. unfold b_class, b_tmpl, name_of.
+  set (PV := VNode "Typename" (strs_items (names_of ns bn))).
+  set (L := [([], VStr "class"); (["name"%string], VStr (string_of n)); (["parent_class"; "namespaces_and_name"]%string, PV);
+             (["members"%string], VNode "Class.Members" (items_of mvals))]).
+  assert (E1 : first_named "template" (virt_items virt ++ L) = None) by (destruct virt; reflexivity).
+  assert (E2 : first_named "name" (virt_items virt ++ L) = Some (VStr (string_of n))) by (destruct virt; reflexivity).
+  assert (E3 : first_named "parent_class" (virt_items virt ++ L) = Some PV) by (destruct virt; reflexivity).
+  assert (E4 : first_named "members" (virt_items virt ++ L) = Some (VNode "Class.Members" (items_of mvals))) by (destruct virt; reflexivity).
+  assert (E5 : flag "is_virtual" (virt_items virt ++ L) = virt) by (destruct virt; reflexivity).
+  rewrite E1, E2, E3, E4, E5. cbn [bind]. unfold PV. change (String.eqb "Typename" "TemplatedType") with false. cbv iota.
+  unfold b_typename. rewrite strs_strs_items. unfold names_of. rewrite map_string_chars, typename_of_path. cbn [bind].
+  rewrite snd_items0, HM. cbn [bind]. rewrite HC. reflexivity.
+Qed.
+
 
 Lemma content_step_class : forall (virt : bool) name mtoks ms F, is_ident (chars_of name) = true -> 40 <= F ->
   (forall R p, exists mvals p', star (interp g F) F MOR6 [] {| pk := p; rest := render mtoks (sp rbrace (sp semi R)) |}
@@ -1420,6 +1585,66 @@ Proof.
     unfold OR5. apply or2_l; [|apply (enum_fails2 p kclass _ (F + z) Wc Bd); discriminate].
     unfold OR4. apply or2_l.
     2:{ unfold TAIL. apply (function_fails 13 [kclass] (ty_value (kw_type "class")) n "{"%char [] BODY class_parses
+                                         (wf_head_kw kclass Wc ltac:(discriminate) ltac:(discriminate)) Hn eq_refl eq_refl (29 + F0 + z) p). lia. }
+    unfold OR3. apply or2_l; [|apply (typedef_fails2 p kclass _ (2 + F + z) Wc Bd); discriminate].
+    unfold OR2. rewrite or2_r; [exact E|].
+    unfold OR1. rewrite or2_r; [apply (include_fails2 p kclass _ (F + z) Wc Bd) | exact FF].
+Qed.
+
+Lemma content_step_class_b : forall (virt : bool) name ns bn mtoks ms F, is_ident (chars_of name) = true ->
+  Forall (fun x => is_ident x = true) (names_of ns bn) -> hd [] (names_of ns bn) <> kconst -> 40 + length ns <= F ->
+  (forall R p, exists mvals p', star (interp g F) F MOR6 [] {| pk := p; rest := render mtoks (sp rbrace (sp semi R)) |}
+                                = Match (items_of mvals) {| pk := p'; rest := sp rbrace (sp semi R) |} /\ mapM b_member mvals = Ok ms) ->
+  forallb (fun c => String.eqb (k_name c) name) (flat_map (fun m => match m with MCtor c => [c] | _ => [] end) ms) = true ->
+  forall p R f, F + 13 <= f ->
+  exists v p', interp g f OR7 {| pk := p; rest := render (class_toks_b virt (chars_of name) (names_of ns bn) mtoks) R |} = Match [([], v)] {| pk := p'; rest := R |}
+               /\ forall k, b_decl (S k) v = Ok (DClass (with_base (class_of_members virt name ms) (base_named ns bn))).
+Proof.
+  intros virt name ns bn mtoks ms F Hn Hnames Hkc HF Hstar HC p R f Hf. set (n := chars_of name) in *.
+  destruct (names_of_cons ns bn) as [h [l [Enames Hlen]]]. rewrite Enames in *. cbn [hd] in Hkc.
+  pose proof (Forall_inv Hnames) as Hh. pose proof (Forall_inv_tail Hnames) as Hl.
+  assert (XF : exists F0, F = 40 + F0) by (exists (F - 40); lia). destruct XF as [F0 EF0]. subst F. set (F := 40 + F0) in *.
+  assert (X : exists z, f = Sn 7 (6 + F + z)) by (exists (f - 13 - F); cbn [Sn]; lia). destruct X as [z Ef]. subst f. cbn [Sn].
+  (* more fuel for the members does not change their parse *)
+  assert (Hstar' : forall q, exists mvals q', star (interp g (F + z)) (F + z) MOR6 [] {| pk := q; rest := render mtoks (sp rbrace (sp semi R)) |}
+                                             = Match (items_of mvals) {| pk := q'; rest := sp rbrace (sp semi R) |} /\ mapM b_member mvals = Ok ms).
+  { intros q. destruct (Hstar R q) as [mvals [q' [E HM]]]. exists mvals, q'. split; [|exact HM].
+    pose proof (fuel_mono run_term g (S F) (GStar MOR6) {| pk := q; rest := render mtoks (sp rbrace (sp semi R)) |}) as M.
+    change (interp_with run_term g) with (interp g) in M. rewrite !i_star in M. rewrite E in M.
+    specialize (M ltac:(discriminate) (S (F + z)) ltac:(lia)). rewrite i_star in M. exact M. }
+  destruct (class_ok_b (fun vs => mapM b_member vs = Ok ms) virt n h l mtoks R (F + z) Hn Hh Hl Hkc ltac:(lia) Hstar' p) as [mvals [p' [E HM]]].
+  exists (class_value_b virt n (h :: l) mvals), p'. split.
+  2:{ intros k. rewrite <- (string_chars name). fold n. rewrite <- Enames. apply b_decl_class_b; [exact HM|]. unfold n. rewrite string_chars. exact HC. }
+  assert (Wc : word kclass) by (split; [discriminate | reflexivity]).
+  assert (Wv : word kvirtual) by (split; [discriminate | reflexivity]).
+  set (BODY := render (mtoks ++ [rbrace; semi]) R).
+  set (BASE := render (path_toks (h :: l)) (sp lbrace BODY)). set (TAIL := sp n (sp colon1 BASE)).
+  assert (ET : render (class_toks_b virt n (h :: l) mtoks) R = render (virt_toks virt) (sp kclass TAIL)).
+  { unfold class_toks_b, TAIL, BASE, BODY. rewrite !render_app. reflexivity. }
+  rewrite ET in *. clear ET.
+  assert (Bd : boundary TAIL) by (right; eexists; reflexivity).
+  assert (Bc : boundary (sp kclass TAIL)) by (right; eexists; reflexivity).
+  pose proof (fwd_fails_class_b virt (33 + F0 + z) p n h l BODY Hn Hh Hl ltac:(lia)) as FF. fold BASE in FF. fold TAIL in FF.
+  destruct (ident_first_alpha n Hn) as [c [w [En Hc]]]. destruct (alpha_plain c Hc) as [Cs [Cl [Ce [Csm _]]]].
+  assert (EQ : 7 + (F + z) = S (6 + F + z)) by lia. rewrite EQ in E.
+  assert (EQ2 : 13 + (33 + F0 + z) = 6 + (40 + F0) + z) by lia. rewrite EQ2 in FF.
+  destruct virt; cbn [virt_toks render fold_right] in E, FF |- *.
+  - unfold OR7. apply or2_l; [|apply (namespace_fails p kvirtual _ Wv Bc (5 + F + z)); discriminate].
+    unfold OR6. apply or2_l.
+    2:{ unfold TAIL. rewrite En. apply (variable_fails 13 [kvirtual] (ty_value (kw_type "virtual")) kclass c w (sp colon1 BASE) virtual_parses eq_refl Cs Ce Csm (3 + F + z) p). lia. }
+    unfold OR5. apply or2_l; [|apply (enum_fails2 p kvirtual _ (F + z) Wv Bc); discriminate].
+    unfold OR4. apply or2_l.
+    2:{ unfold TAIL. rewrite En. apply (function_fails 13 [kvirtual] (ty_value (kw_type "virtual")) kclass c w (sp colon1 BASE) virtual_parses
+                                         (wf_head_kw kvirtual Wv ltac:(discriminate) ltac:(discriminate)) eq_refl Cs Cl (29 + F0 + z) p). lia. }
+    unfold OR3. apply or2_l; [|apply (typedef_fails2 p kvirtual _ (2 + F + z) Wv Bc); discriminate].
+    unfold OR2. rewrite or2_r; [exact E|].
+    unfold OR1. rewrite or2_r; [apply (include_fails2 p kvirtual _ (F + z) Wv Bc) | exact FF].
+  - unfold OR7. apply or2_l; [|apply (namespace_fails p kclass _ Wc Bd (5 + F + z)); discriminate].
+    unfold OR6. apply or2_l.
+    2:{ unfold TAIL. apply (variable_fails 13 [kclass] (ty_value (kw_type "class")) n ":"%char [] BASE class_parses Hn eq_refl eq_refl eq_refl (3 + F + z) p). lia. }
+    unfold OR5. apply or2_l; [|apply (enum_fails2 p kclass _ (F + z) Wc Bd); discriminate].
+    unfold OR4. apply or2_l.
+    2:{ unfold TAIL. apply (function_fails 13 [kclass] (ty_value (kw_type "class")) n ":"%char [] BASE class_parses
                                          (wf_head_kw kclass Wc ltac:(discriminate) ltac:(discriminate)) Hn eq_refl eq_refl (29 + F0 + z) p). lia. }
     unfold OR3. apply or2_l; [|apply (typedef_fails2 p kclass _ (2 + F + z) Wc Bd); discriminate].
     unfold OR2. rewrite or2_r; [exact E|].
@@ -2066,6 +2291,29 @@ Proof.
   - unfold F. lia.
 Qed.
 
+Definition wf_class_b (name : string) (ns : list string) (bn : string) (ms : list mem) : Prop :=
+  wf_class name ms /\ Forall (fun x => is_ident x = true) (names_of ns bn) /\ hd [] (names_of ns bn) <> kconst.
+Definition class_decl_b (virt : bool) (name : string) (ns : list string) (bn : string) (ms : list mem) : decl :=
+  DClass (with_base (class_of_members virt name (map (mem_member name) ms)) (base_named ns bn)).
+Definition class_item_toks_b (virt : bool) (name : string) (ns : list string) (bn : string) (ms : list mem) : list chars :=
+  class_toks_b virt (chars_of name) (names_of ns bn) (flat_map (mem_toks (chars_of name)) ms).
+
+Lemma content_step_cls_b : forall virt name ns bn ms, wf_class_b name ns bn ms ->
+  forall p R f, 54 + length ns + length ms + mems_fuel ms <= f ->
+  exists v p', interp g f OR7 {| pk := p; rest := render (class_item_toks_b virt name ns bn ms) R |} = Match [([], v)] {| pk := p'; rest := R |}
+               /\ forall k, b_decl (S k) v = Ok (class_decl_b virt name ns bn ms).
+Proof.
+  intros virt name ns bn ms [[Hn [Hok [Hres Hwf]]] [Hnames Hkc]] p R f Hf. set (F := 41 + length ns + length ms + mems_fuel ms).
+  apply (content_step_class_b virt name ns bn (flat_map (mem_toks (chars_of name)) ms) (map (mem_member name) ms) F Hn Hnames Hkc ltac:(unfold F; lia)).
+  - intros R0 q.
+    destruct (members_star (chars_of name) Hn Hok Hres ms Hwf F ltac:(unfold F; lia)
+                (fun m Hm => ltac:(pose proof (mems_fuel_ge ms m Hm); unfold F; lia)) (sp semi R0) F [] q ltac:(unfold F; lia)) as [vs [q' [E B]]].
+    exists vs, q'. split; [exact E|]. rewrite string_chars in B. exact B.
+  - apply ctor_names.
+  - unfold F. lia.
+Qed.
+
+
 
 Definition stops (R : chars) : Prop := forall p f, 30 <= f -> interp g f OR7 {| pk := p; rest := R |} = Fail.
 
@@ -2153,6 +2401,7 @@ Inductive item : Type :=
 | ITypedef (t : ty) (name : string)
 | IFnP (t1 t2 : ty) (name : string) (args : list (ty * string))
 | IClass (virt : bool) (name : string) (ms : list mem)
+| IClassB (virt : bool) (name : string) (ns : list string) (base : string) (ms : list mem)
 | INs (name : string) (body : list item).
 
 Fixpoint itoks (i : item) : list chars :=
@@ -2165,6 +2414,7 @@ Fixpoint itoks (i : item) : list chars :=
   | ITypedef t n => typedef_toks t n
   | IFnP a b n l => pfn_toks a b n l
   | IClass v n ms => class_item_toks v n ms
+  | IClassB v n ns bn ms => class_item_toks_b v n ns bn ms
   | INs n b => [knamespace; chars_of n; lbrace] ++ flat_map itoks b ++ [rbrace]
   end.
 Definition items_toks (l : list item) : list chars := flat_map itoks l.
@@ -2178,10 +2428,11 @@ Fixpoint idecl (i : item) : decl :=
   | ITypedef t n => DTypedef (ty_typename t) n
   | IFnP a b n l => pfn_decl a b n l
   | IClass v n ms => class_decl v n ms
+  | IClassB v n ns bn ms => class_decl_b v n ns bn ms
   | INs n b => DNamespace n (map idecl b)
   end.
 Fixpoint idepth (i : item) : nat :=
-  match i with IFn _ => 0 | IVar _ _ => 0 | IFwd _ _ => 0 | IInc _ => 0 | IEnum _ _ => 0 | ITypedef _ _ => 0 | IFnP _ _ _ _ => 0 | IClass _ _ _ => 0 | INs _ b => S (fold_right (fun x acc => Nat.max (idepth x) acc) 0 b) end.
+  match i with IFn _ => 0 | IVar _ _ => 0 | IFwd _ _ => 0 | IInc _ => 0 | IEnum _ _ => 0 | ITypedef _ _ => 0 | IFnP _ _ _ _ => 0 | IClass _ _ _ => 0 | IClassB _ _ _ _ _ => 0 | INs _ b => S (fold_right (fun x acc => Nat.max (idepth x) acc) 0 b) end.
 Fixpoint wf_item (i : item) : Prop :=
   match i with
   | IFn x => wf_fn x
@@ -2192,6 +2443,7 @@ Fixpoint wf_item (i : item) : Prop :=
   | ITypedef t n => wf_typedef t n
   | IFnP a b n l => wf_pfn a b n l
   | IClass _ n ms => wf_class n ms
+  | IClassB _ n ns bn ms => wf_class_b n ns bn ms
   | INs n b => is_ident (chars_of n) = true /\ (fix all (l : list item) : Prop := match l with [] => True | x :: r => wf_item x /\ all r end) b
   end.
 Fixpoint need (i : item) : nat :=
@@ -2204,6 +2456,7 @@ Fixpoint need (i : item) : nat :=
   | ITypedef t _ => 40 + fuel_of t
   | IFnP a b _ l => pfn_fuel a b l + 25
   | IClass _ _ ms => 54 + length ms + mems_fuel ms
+  | IClassB _ _ ns _ ms => 54 + length ns + length ms + mems_fuel ms
   | INs _ b => 37 + length b + fold_right (fun x acc => need x + acc) 0 b
   end.
 Definition needs (l : list item) : nat := 31 + length l + fold_right (fun x acc => need x + acc) 0 l.
@@ -2251,7 +2504,7 @@ Proof.
       set (REST := render (items_toks items) R) in *.
       assert (Step : exists v p1, interp g F OR7 {| pk := p; rest := render (itoks i) REST |} = Match [([], v)] {| pk := p1; rest := REST |}
                                   /\ forall bf, S n <= bf -> b_decl bf v = Ok (idecl i)).
-      { destruct i as [x|t nm|vt nm|hd|en el|tt tnm|pa pb pn pl|cv cn cms|nm b].
+      { destruct i as [x|t nm|vt nm|hd|en el|tt tnm|pa pb pn pl|cv cn cms|bv bcn bns bbn bms|nm b].
         - cbn [wf_item itoks idecl need] in *. destruct (content_step x Hwi p REST F ltac:(lia)) as [v [p1 [E B]]].
           exists v, p1. split; [exact E|]. intros bf Hbf. destruct bf as [|bf]; [lia|]. apply B.
         - cbn [wf_item itoks idecl need] in *. destruct (content_step_var t nm Hwi p REST F ltac:(lia)) as [v [p1 [E B]]].
@@ -2267,6 +2520,8 @@ Proof.
         - cbn [wf_item itoks idecl need] in *. destruct (content_step_pfn pa pb pn pl Hwi p REST F ltac:(lia)) as [v [p1 [E B]]].
           exists v, p1. split; [exact E|]. intros bf Hbf. destruct bf as [|bf]; [lia|]. apply B.
         - cbn [wf_item itoks idecl need] in *. destruct (content_step_cls cv cn cms Hwi p REST F ltac:(lia)) as [v [p1 [E B]]].
+          exists v, p1. split; [exact E|]. intros bf Hbf. destruct bf as [|bf]; [lia|]. apply B.
+        - cbn [wf_item itoks idecl need] in *. destruct (content_step_cls_b bv bcn bns bbn bms Hwi p REST F ltac:(lia)) as [v [p1 [E B]]].
           exists v, p1. split; [exact E|]. intros bf Hbf. destruct bf as [|bf]; [lia|]. apply B.
         - cbn [wf_item itoks idecl need idepth] in *. destruct Hwi as [Hnm Hall].
           assert (Hb : forall j, In j b -> idepth j < n /\ wf_item j).
@@ -2468,7 +2723,7 @@ Qed.
 
 Lemma item_facts : forall n i, idepth i < n -> wf_item i -> Forall tok_ok (itoks i) /\ need i + 1 <= 32 * length (itoks i).
 Proof.
-  induction n as [|n IH]; intros i Hd Hw; [lia|]. destruct i as [x|t nm|vt nm|hd|en el|tt tnm|pa pb pn pl|cv cn cms|nm b].
+  induction n as [|n IH]; intros i Hd Hw; [lia|]. destruct i as [x|t nm|vt nm|hd|en el|tt tnm|pa pb pn pl|cv cn cms|bv bcn bns bbn bms|nm b].
   - cbn [wf_item itoks need] in *. destruct (fn_facts x Hw) as [F1 [F2 F3]]. split; [exact F1 | lia].
   - cbn [wf_item itoks need] in *. destruct Hw as [Hw [Hdt [_ Hn]]]. destruct (ty_facts _ _ Hdt Hw) as [T1 T2]. unfold var_toks. split.
     + apply Forall_app. split; [exact T1|]. constructor; [apply ident_tok; exact Hn | tok_lit].
@@ -2503,6 +2758,13 @@ Proof.
     unfold class_item_toks, class_toks. split.
     + apply Forall_app. split; [destruct cv; cbn [virt_toks]; tok_lit|]. cbn [app]. constructor; [tok_lit|]. constructor; [apply ident_tok; exact Hn|].
       constructor; [tok_lit|]. apply Forall_app. split; [exact M1 | tok_lit].
+    + rewrite !app_length. cbn [length]. lia.
+  - cbn [wf_item itoks need] in *. destruct Hw as [[Hn [_ [_ Hwf]]] [Hnames _]]. destruct (mems_facts (chars_of bcn) bms Hn Hwf) as [M1 M2].
+    destruct (path_tok _ Hnames) as [P1 P2].
+    assert (LN : length (names_of bns bbn) = length bns + 1) by (unfold names_of; rewrite map_length, app_length; reflexivity).
+    unfold class_item_toks_b, class_toks_b. split.
+    + apply Forall_app. split; [destruct bv; cbn [virt_toks]; tok_lit|]. cbn [app]. constructor; [tok_lit|]. constructor; [apply ident_tok; exact Hn|].
+      constructor; [tok_lit|]. apply Forall_app. split; [exact P1|]. cbn [app]. constructor; [tok_lit|]. apply Forall_app. split; [exact M1 | tok_lit].
     + rewrite !app_length. cbn [length]. lia.
   - cbn [wf_item itoks need idepth] in *. destruct Hw as [Hnm Hall].
     assert (Hb : forall j, In j b -> Forall tok_ok (itoks j) /\ need j + 1 <= 32 * length (itoks j)).
